@@ -83,9 +83,8 @@ let answer (d : dump) (tree : obj option) (q : Stdlib.String.t) (r : Stdlib.Stri
       (match getd d (int_of_string a) with
        | Some src ->
            let max = n_of_int (int_of_string mx) in
-           let m = (match get_closest_objs d src max with
-             | CL_oob -> "crash"
-             | CL_objs l -> Stdlib.Printf.sprintf "%d %s" (Stdlib.List.length l) (pids (Stdlib.List.map (fun (o : dobj) -> o.o_id) l))) in
+           let l = get_closest_objs d src max in
+           let m = Stdlib.Printf.sprintf "%d %s" (Stdlib.List.length l) (pids (Stdlib.List.map (fun (o : dobj) -> o.o_id) l)) in
            let v = (match rw with
              | ["crash"] -> "FAIL closest-objs-negative-depth"
              | [_; cids] -> if src.o_cs = None then "ok" else verdict "closest_sorted_by_ancestor" (closest_spec d src max (ids_of_text cids))
@@ -148,12 +147,14 @@ let answer (d : dump) (tree : obj option) (q : Stdlib.String.t) (r : Stdlib.Stri
                  let slots = Stdlib.List.map bset_of_text csets in
                  if Stdlib.List.exists (fun x -> x = "!overrun") csets then "FAIL distrib-overrun" else
                  (match slots_sets slots with
-                  | None -> if int_of_n (wsum (Stdlib.List.map fst roots)) = 0 then "FAIL distrib-cpuless-roots" else "FAIL distrib_count"
+                  | None -> "FAIL distrib_count"
                   | Some sets ->
                       if not (distrib_spec_cover roots nn sets) then "FAIL distrib_nonempty_included_cover"
                       else if not (distrib_spec_disjoint roots nn u sets) then "FAIL distrib_disjoint"
                       else if distrib_disjoint_applies roots nn u then "ok disjoint-claimed" else "ok")
-             | "-1" :: _ -> if int_of_string n = 0 || (int_of_string flags) land (lnot 1) <> 0 then "ok" else "FAIL distrib-rc"
+             | "-1" :: _ ->
+                 (* legal errors: n = 0, unknown flags, or no CPU below the roots *)
+                 if int_of_string n = 0 || (int_of_string flags) land (lnot 1) <> 0 || int_of_n (wsum (Stdlib.List.map fst roots)) = 0 then "ok" else "FAIL distrib-rc"
              | _ -> "FAIL distrib-format") in
            (m, v)))
   | ["singlify_per_core"; s; which] ->
